@@ -471,10 +471,44 @@ class Engine:
             return
         if self.loop_body_is_logging_only(s):
             return
+        inert = self.loop_inert_names(s)
+        if inert is not None:
+            # the body only logs and computes throw-away locals from pure expressions: no effect on anything verified
+            for n in inert:
+                env[n] = Opaque("local of an inert loop: " + n)
+            return
         self.spec.exec_loop(self, s, env, it)
 
     def loop_body_is_logging_only(self, s):
         return all(isinstance(b, ast.Expr) and self.is_log_call(b.value) for b in s.body)
+
+    def loop_inert_names(self, s):
+        """names assigned by a loop whose body has no effect besides logging (None if the loop is not of that shape)"""
+        names = set()
+
+        def pure(e):
+            for n in ast.walk(e):
+                if isinstance(n, (ast.Call, ast.Subscript, ast.Attribute, ast.Await, ast.Yield, ast.YieldFrom, ast.NamedExpr, ast.Lambda, ast.ListComp, ast.GeneratorExp, ast.DictComp, ast.SetComp, ast.BinOp)):
+                    return False
+            return True
+
+        def ok(stmts):
+            for b in stmts:
+                if isinstance(b, ast.Pass):
+                    continue
+                if isinstance(b, ast.Expr) and (self.is_log_call(b.value) or isinstance(b.value, ast.Constant)):
+                    continue
+                if isinstance(b, ast.Assign) and all(isinstance(t, ast.Name) for t in b.targets) and pure(b.value):
+                    names.update(t.id for t in b.targets)
+                    continue
+                if isinstance(b, ast.If) and pure(b.test) and ok(b.body) and ok(b.orelse):
+                    continue
+                return False
+            return True
+
+        if s.orelse or not ok(s.body):
+            return None
+        return names
 
     def concrete_iter(self, it):
         """A Python list of values if the iterable has a concrete length on this path, else None."""
@@ -534,7 +568,9 @@ class Engine:
         if isinstance(o, ObjVal):
             if attr in o.fields:
                 return o.fields[attr]
-            return BoundMethod(o, attr)
+            if attr in self.spec.classes.get(o.cls, {}):
+                return BoundMethod(o, attr)
+            raise OutOfSubset("attribute %s of %s is neither a field nor a method known to the contract (line %s)" % (attr, o.cls, getattr(node, "lineno", "?")))
         if isinstance(o, Sym):
             h = self.spec.sym_getattr(self, o, attr, node)
             if h is not NotImplemented:
